@@ -70,12 +70,18 @@ func c08WorkerMain(dir string) {
 		var ms runtime.MemStats
 		for {
 			time.Sleep(20 * time.Millisecond)
+			t := c08BusySince.Load()
+			if t == 0 {
+				// between cases: garbage of the previous case may still be on the heap; a death
+				// now would be attributed to the next case
+				continue
+			}
 			runtime.ReadMemStats(&ms)
-			if ms.HeapAlloc > c08MemLimit {
+			if ms.HeapAlloc > c08MemLimit && c08BusySince.Load() == t {
 				os.Stderr.WriteString("WATCHDOG memory\n")
 				os.Exit(99)
 			}
-			if t := c08BusySince.Load(); t != 0 && time.Now().UnixNano()-t > int64(c08Deadline) {
+			if time.Now().UnixNano()-t > int64(c08Deadline) {
 				os.Stderr.WriteString("WATCHDOG deadline\n")
 				os.Exit(98)
 			}
@@ -89,9 +95,11 @@ func c08WorkerMain(dir string) {
 		comp, name := parts[0], parts[1]
 		data, _ := hex.DecodeString(parts[2])
 		out, aux, meas, us, cpu := c08RunOne(dir, comp, name, data)
-		fmt.Fprintf(w, "%s\t%s\t%d\t%d\t%d\n", out.String(), hex.EncodeToString(aux), meas, us, cpu)
+		line := fmt.Sprintf("%s\t%s\t%d\t%d\t%d\n", out.String(), hex.EncodeToString(aux), meas, us, cpu)
+		out, aux, data = nil, nil, nil
+		debug.FreeOSMemory() // collect the case's garbage before the answer is sent
+		w.WriteString(line)
 		w.Flush()
-		runtime.GC()
 	}
 }
 
@@ -483,6 +491,7 @@ func genC08(c *Ctx) {
 	var functional []func()
 	maxUs, maxTag := int64(0), ""
 	maxCpu, maxCpuTag := int64(0), ""
+	maxOkCpu, maxOkCpuTag := int64(0), ""
 	for i, cs := range cases {
 		r := res[i]
 		if r.us > maxUs {
@@ -490,6 +499,9 @@ func genC08(c *Ctx) {
 		}
 		if r.cpu > maxCpu {
 			maxCpu, maxCpuTag = r.cpu, cs.comp+"/"+cs.tag
+		}
+		if r.cpu > maxOkCpu && r.cpu <= 5000000 {
+			maxOkCpu, maxOkCpuTag = r.cpu, cs.comp+"/"+cs.tag
 		}
 		var dataSx Sx
 		n := 0
@@ -516,6 +528,7 @@ func genC08(c *Ctx) {
 	}
 	fmt.Fprintf(os.Stderr, "C08 isolated cases=%d; max wall per case %.3fs (%s); max thread CPU per case %.3fs (%s); limit 5 s CPU\n",
 		len(cases), float64(maxUs)/1e6, maxTag, float64(maxCpu)/1e6, maxCpuTag)
+	fmt.Fprintf(os.Stderr, "C08 largest thread CPU below the limit: %.3fs (%s)\n", float64(maxOkCpu)/1e6, maxOkCpuTag)
 	c08Streams(c)
 	for _, f := range functional {
 		f()
